@@ -324,7 +324,7 @@ fn md_check(rep: &mut Report, p: &MdPend, model: &str, parse_ans: Option<&str>, 
             return;
         }
     };
-    rep.disagreements_checked += 1;
+    rep.count("md.compared_with_model");
     let Some(mbytes) = model.strip_prefix("ok h").map(unhex) else {
         rep.fail("disagreement", None, format!("model answer {:?}", &model[..model.len().min(60)]), md_json(c));
         return;
@@ -437,6 +437,9 @@ fn run_md(rep: &mut Report, dir: &Path) {
     }
     let ans = run_model_named(DRV, &reqs, &rep.workdir, "c13md");
     for (p, (mi, pi, fi)) in pend.iter().zip(idx.iter()) {
+        if rep.verdict_clear() {
+            break;
+        }
         if rep.samples.len() < 4 && p.case.files.len() == 1 && p.real.is_ok() {
             rep.sample(json!({"request": reqs[*mi], "impl": String::from_utf8_lossy(p.real.as_ref().unwrap()), "model": ans[*mi]}));
         }
@@ -673,7 +676,7 @@ fn badge_requests(c: u64, t: u64, p: usize, lims: (Lim, Lim), real: &[Vec<u8>]) 
 }
 
 fn badge_check(rep: &mut Report, b: &BadgePend, ans: &[String]) {
-    rep.disagreements_checked += 1;
+    rep.count("md.compared_with_model");
     if b.oracle_failed {
         return;
     }
@@ -757,6 +760,9 @@ fn run_badges(rep: &mut Report, dir: &Path) {
     }
     let ans = run_model_named(DRV, &reqs, &rep.workdir, "c13badge");
     for b in &pend {
+        if rep.verdict_clear() {
+            break;
+        }
         let _ = (b.p, b.lims);
         badge_check(rep, b, &ans[b.first_req..b.first_req + 12]);
     }
@@ -804,7 +810,7 @@ fn html_check(rep: &mut Report, case: &Case, li: usize, real: &[Vec<u8>], ans: &
         rep.fail("oracle", None, format!("html report, global totals {} / {}: {}", c, t, f), cj);
         return false;
     }
-    rep.disagreements_checked += 1;
+    rep.count("md.compared_with_model");
     let toks: Vec<&str> = ans.split(' ').collect();
     if toks.len() != 9 || toks[0] != "ok" {
         rep.fail("disagreement", None, format!("model answer {:?}", &ans[..ans.len().min(60)]), cj);
@@ -859,6 +865,9 @@ fn run_html(rep: &mut Report) {
     }
     let ans = run_model_named(DRV, &reqs, &rep.workdir, "c13mdhtml");
     for ((case, li, real), a) in pend.iter().zip(ans.iter()) {
+        if rep.verdict_clear() {
+            break;
+        }
         html_check(rep, case, *li, real, a);
     }
 }
